@@ -25,6 +25,7 @@ from .values import (
     js_typeof,
     js_pow,
     norm_number,
+    native_result,
 )
 from .errors import (
     JSError,
@@ -2343,7 +2344,7 @@ class VM:
         elif callable(callee):
             # Native function
             result = callee(*args)
-            self.stack.append(result if result is not None else UNDEFINED)
+            self.stack.append(native_result(result))
         else:
             raise JSTypeError(f"{callee} is not a function")
 
@@ -2358,10 +2359,10 @@ class VM:
         elif isinstance(method, JSBoundMethod):
             # JSBoundMethod expects this_val as first argument
             result = method(this_val, *args)
-            self.stack.append(result if result is not None else UNDEFINED)
+            self.stack.append(native_result(result))
         elif callable(method):
             result = method(*args)
-            self.stack.append(result if result is not None else UNDEFINED)
+            self.stack.append(native_result(result))
         else:
             raise JSTypeError(f"{method} is not a function")
 
@@ -2461,7 +2462,7 @@ class VM:
             return UNDEFINED
         elif callable(callback):
             result = callback(*args)
-            return result if result is not None else UNDEFINED
+            return native_result(result)
         else:
             raise JSTypeError(f"{callback} is not a function")
 
